@@ -56,6 +56,9 @@ impl RHistory {
             rest = tail.find('"').map_or("", |j| &tail[j + 1..]);
         }
         core::fnv(&mut h, rest.as_bytes());
+        if let Some(t) = &self.term_output {
+            core::fnv(&mut h, t.as_bytes());
+        }
         core::fnv(&mut h, &self.sched_digest.to_le_bytes());
         h
     }
@@ -151,7 +154,9 @@ pub fn run_reporter(plan: &Rc<Plan>) -> Result<RHistory, String> {
     crate::runa::install_counting_hook();
     let mut hrng = Rng::new(plan.writer.sink_seed);
     let hseed = hrng.next_u64();
-    let (items, shape) = history::generate(plan, &core, hseed)?;
+    // (Libtest forwards Log events with `print!()` to the process's real stdout, which is the worker's
+    // protocol channel and no seam: no logs for that reporter)
+    let (items, shape) = history::generate_with_logs(plan, &core, hseed, reporter_name(plan) != "libtest")?;
     let mut rec = Recorder::new(&core);
     let input: Vec<Ev> = items.iter().map(|it| rec.record(it)).collect();
     let stats = Rc::new(SinkStats::default());
@@ -534,8 +539,35 @@ fn c14_json(h: &RHistory, out: &mut Vec<Violation>) {
             _ => {}
         }
     }
+    // logs (tracing build): each is embedded, exactly once, in the next step / hook result of its attempt
+    for (i, e) in h.input.iter().enumerate() {
+        let K::Log(msg) = &e.k else { continue };
+        let el = format!(
+            "{}|{}{}|{}",
+            e.feature.clone().unwrap_or_default(),
+            e.rule.as_ref().map(|r| format!("{r} ")).unwrap_or_default(),
+            e.scenario.clone().unwrap_or_default(),
+            e.sc_line
+        );
+        let key = e.attempt_key();
+        let next = h.input[i + 1..].iter().filter(|x| x.attempt_key() == key).find_map(|x| match &x.k {
+            K::StepPassed { .. } | K::StepSkipped { .. } | K::StepFailed { .. } => {
+                let st = x.step.as_ref().unwrap();
+                Some(format!("step|{}|{}{}", st.line, st.kw, st.text))
+            }
+            K::HookPassed(hk) | K::HookFailed(hk, ..) => Some(format!("hook|{hk:?}")),
+            _ => None,
+        });
+        add(&mut want, format!("log|{el}|{}|{}", log_token(msg), next.unwrap_or_else(|| "dropped".into())));
+    }
     let mut got = Bag::new();
     let s = |v: &serde_json::Value, k: &str| v.get(k).and_then(|x| x.as_str()).unwrap_or("").to_owned();
+    let embedded = |v: &serde_json::Value| -> Vec<String> {
+        v.get("embeddings")
+            .and_then(|x| x.as_array())
+            .map(|a| a.iter().map(|e| log_token(&String::from_utf8_lossy(&base64_decode(e.get("data").and_then(|d| d.as_str()).unwrap_or(""))))).collect())
+            .unwrap_or_default()
+    };
     for f in features {
         let fname = s(f, "name");
         for el in f.get("elements").and_then(|x| x.as_array()).map(Vec::as_slice).unwrap_or(&[]) {
@@ -558,12 +590,18 @@ fn c14_json(h: &RHistory, out: &mut Vec<Violation>) {
                     &mut got,
                     format!("step|{elk}|{ty}|{status}|{}|{}{}|{tok}", st.get("line").and_then(serde_json::Value::as_u64).unwrap_or(0), s(st, "keyword"), s(st, "name")),
                 );
+                for t in embedded(st) {
+                    add(&mut got, format!("log|{elk}|{t}|step|{}|{}{}", st.get("line").and_then(serde_json::Value::as_u64).unwrap_or(0), s(st, "keyword"), s(st, "name")));
+                }
             }
             for (key, hk) in [("before", "Before"), ("after", "After")] {
                 for hr in el.get(key).and_then(|x| x.as_array()).map(Vec::as_slice).unwrap_or(&[]) {
                     let res = hr.get("result").cloned().unwrap_or_default();
                     if s(&res, "status") == "failed" {
                         add(&mut got, format!("hook|{elk}|{hk}|{}", text_token(&s(&res, "error_message"))));
+                    }
+                    for t in embedded(hr) {
+                        add(&mut got, format!("log|{elk}|{t}|hook|{hk}"));
                     }
                 }
             }
@@ -572,6 +610,37 @@ fn c14_json(h: &RHistory, out: &mut Vec<Violation>) {
     if let Some((code, msg)) = diff("Cucumber JSON", &got, &want) {
         out.push(v(&format!("facts-{code}"), msg).attr("reporter", rep));
     }
+}
+
+/// `logtokNx` of a generated log message (the whole trimmed message if there is none).
+fn log_token(msg: &str) -> String {
+    msg.split(|c: char| !c.is_ascii_alphanumeric()).find(|w| w.starts_with("logtok")).map_or_else(|| msg.trim().to_owned(), str::to_owned)
+}
+
+fn base64_decode(s: &str) -> Vec<u8> {
+    let val = |c: u8| -> Option<u32> {
+        match c {
+            b'A'..=b'Z' => Some(u32::from(c - b'A')),
+            b'a'..=b'z' => Some(u32::from(c - b'a') + 26),
+            b'0'..=b'9' => Some(u32::from(c - b'0') + 52),
+            b'+' | b'-' => Some(62),
+            b'/' | b'_' => Some(63),
+            _ => None,
+        }
+    };
+    let mut out = Vec::new();
+    let (mut acc, mut bits) = (0u32, 0u32);
+    for c in s.bytes() {
+        let Some(v) = val(c) else { continue };
+        acc = (acc << 6) | v;
+        bits += 6;
+        if bits >= 8 {
+            bits -= 8;
+            out.push((acc >> bits) as u8);
+            acc &= (1 << bits) - 1;
+        }
+    }
+    out
 }
 
 // ---------------------------------------------------------------------------------------------
@@ -596,6 +665,14 @@ fn parse_basic(text: &str, ctx: &mut BasicCtx, scenario_level: bool, got: &mut B
     let is_header = |l: &str| {
         let t = l.trim_start();
         t.starts_with("Feature: ") || t.starts_with("Rule: ") || t.starts_with("Scenario: ") || t.starts_with("Scenario Outline: ") || t.starts_with("[Summary]") || t.starts_with("Failed to parse: ")
+            || t.starts_with("LOGLINE ")
+    };
+    // log lines seen and not yet attached to the entry printed after them: (scenario context, token)
+    let mut pending_logs: Vec<(String, String)> = Vec::new();
+    let flush_logs = |pending: &mut Vec<(String, String)>, next: &str, got: &mut Bag| {
+        for (sc, tok) in pending.drain(..) {
+            add(got, format!("log|{sc}|{tok}|{next}"));
+        }
     };
     while i < lines.len() {
         let l = lines[i];
@@ -604,6 +681,10 @@ fn parse_basic(text: &str, ctx: &mut BasicCtx, scenario_level: bool, got: &mut B
         i += 1;
         if t.starts_with("[Summary]") {
             break;
+        }
+        if l.starts_with("LOGLINE ") {
+            pending_logs.push((format!("{}|{}|{}|{}", ctx.feature, ctx.rule, ctx.scenario, ctx.attempt), log_token(l)));
+            continue;
         }
         if let Some(rest) = t.strip_prefix("Failed to parse: ") {
             // error text may span lines until the next header
@@ -618,16 +699,19 @@ fn parse_basic(text: &str, ctx: &mut BasicCtx, scenario_level: bool, got: &mut B
         }
         if indent == 0 && !scenario_level {
             if let Some(n) = t.strip_prefix("Feature: ") {
+                flush_logs(&mut pending_logs, "end", got);
                 ctx.feature = n.to_owned();
                 ctx.rule.clear();
                 continue;
             }
             if let Some(n) = t.strip_prefix("Rule: ") {
+                flush_logs(&mut pending_logs, "end", got);
                 ctx.rule = n.to_owned();
                 continue;
             }
         }
         if let Some(n) = t.strip_prefix("Scenario: ").or_else(|| t.strip_prefix("Scenario Outline: ")) {
+            flush_logs(&mut pending_logs, "end", got);
             if !scenario_level && indent < 4 {
                 ctx.rule.clear();
             }
@@ -662,14 +746,17 @@ fn parse_basic(text: &str, ctx: &mut BasicCtx, scenario_level: bool, got: &mut B
             if let Some(rest) = first.strip_prefix("Scenario's ") {
                 let hook = rest.split(' ').next().unwrap_or("");
                 add(got, format!("hook|{sc}|{hook}|{}", text_token(&body)));
+                flush_logs(&mut pending_logs, &format!("hook:{hook}"), got);
                 continue;
             }
             let tok = if status == "failed" { text_token(&body) } else { String::new() };
             add(got, format!("step|{sc}|{bg}|{status}|{first}|{tok}"));
+            flush_logs(&mut pending_logs, &format!("step:{first}"), got);
             continue;
         }
         // anything else: continuation we did not attach (doc strings of passed steps etc.)
     }
+    flush_logs(&mut pending_logs, "end", got);
     Ok(())
 }
 
@@ -697,6 +784,27 @@ fn basic_expected(input: &[Ev], with_feature: bool) -> Bag {
             K::ParseError(t) if with_feature => add(&mut want, format!("perr|{}", perr_token(t))),
             _ => {}
         }
+    }
+    // logs (tracing build): printed once, in the scenario's block, before the next entry the attempt prints
+    for (i, e) in input.iter().enumerate() {
+        let K::Log(msg) = &e.k else { continue };
+        let sc = format!(
+            "{}|{}|{}|{}",
+            if with_feature { e.feature.clone().unwrap_or_default() } else { String::new() },
+            if with_feature { e.rule.clone().unwrap_or_default() } else { String::new() },
+            e.scenario.clone().unwrap_or_default(),
+            attempt_no(e)
+        );
+        let key = e.attempt_key();
+        let next = input[i + 1..].iter().filter(|x| x.attempt_key() == key).find_map(|x| match &x.k {
+            K::StepPassed { .. } | K::StepSkipped { .. } | K::StepFailed { .. } => {
+                let st = x.step.as_ref().unwrap();
+                Some(format!("step:{}{}", st.kw, st.text))
+            }
+            K::HookFailed(hk, ..) => Some(format!("hook:{hk:?}")),
+            _ => None,
+        });
+        add(&mut want, format!("log|{sc}|{}|{}", log_token(msg), next.unwrap_or_else(|| "end".into())));
     }
     want
 }
